@@ -139,9 +139,8 @@ func FuzzSQLValueBytes(f *testing.F) {
 		if typ == sql.JSONType && d.RawValue() == nil {
 			return // JSON null literal: the SQL NULL, not encodable as a value
 		}
-		if nullable && !d.IsNull() && n == 4 {
-			t.Fatalf("%s: nullable decoder returned a value for an empty payload", typ)
-		}
+		// (an empty payload is the empty string/blob: NULL has its own marker since the K5c fix;
+		// the round-trip below is what is asserted)
 		e1, err := enc(d, typ, 0)
 		if err != nil {
 			t.Fatalf("%s: value %v decoded from %x cannot be encoded: %v", typ, d.RawValue(), b[:n], err)
